@@ -305,6 +305,70 @@ namespace
         return std::nullopt;
     }
 
+    // ---- part sess -----------------------------------------------------------------------------------------------------
+    // A SESSION selects one caller-owned GlobalState with a GlobalContext and runs several independent graphs in it, one after
+    // the other, the way the testing harness (eval_node) does: wire (live-seeded from the session), finish, seed the replay
+    // buffer on the builder, run, copy the completed state back into the session, read the recording. Every run records its
+    // output under the same key with the harness recorder ("testing" backend), cycle-aligned (d) or as (time, delta) entries (s).
+    // What a run records is a function of (graph, inputs) only - not of what ran earlier in the session.
+    struct PlusSeven { static constexpr auto name = "c07_plus_seven"; static void eval(In<"x", TS<Int>> x, Out<TS<Int>> out) { out.set(x.value() + 7); } };
+    struct TimesTen { static constexpr auto name = "c07_times_ten"; static void eval(In<"x", TS<Int>> x, Out<TS<Int>> out) { out.set(x.value() * 10); } };
+    const std::vector<std::optional<Int>> SESS_IN[2] = {{Int{1}, std::nullopt, Int{3}}, {Int{5}, Int{6}, std::nullopt, Int{8}, Int{2}}};
+    std::string sess_run(const std::string &op)
+    {
+        const char g = op[0], layout = op[1]; const int h = op[2] - '0';
+        Wiring w;
+        record_replay::set_config(w.global_state(), record_replay::RecordReplayConfig{.backend = std::string{record_replay::TESTING}});
+        auto src = wire<stdlib::replay, TS<Int>>(w, Str{"in"});
+        auto out = g == 'P' ? wire<PlusSeven>(w, src) : wire<TimesTen>(w, src);
+        wire<stdlib::record>(w, out, Str{"out"}, arg<"sparse">(Bool{layout == 's'}));
+        GraphBuilder gb = std::move(w).finish();
+        testing::set_replay_values<Int>(gb.global_state(), "in", SESS_IN[h]);
+        GraphExecutorBuilder eb;
+        eb.graph_builder(std::move(gb)).start_time(MIN_ST).end_time(MIN_ST + TimeDelta{100});
+        GraphExecutorValue executor = eb.make_executor();
+        auto view = executor.view();
+        view.run();
+        if (GlobalState *selected = GlobalContext::active_state()) selected->view().copy_from(view.graph().global_state());
+        std::string r;
+        if (layout == 's')
+            for (const auto &[cycle, delta] : testing::get_recorded_sparse(view.graph().global_state(), "out")) r += "@" + std::to_string(cycle) + ":" + delta.view().to_string() + " ";
+        else
+        {
+            std::size_t c = 0;
+            for (const auto &d : testing::get_recorded_deltas(view.graph().global_state(), "out")) { if (d) r += "@" + std::to_string(c) + ":" + d->view().to_string() + " "; ++c; }
+        }
+        return r;
+    }
+    const std::string &sess_reference(const std::string &op)
+    {
+        static std::map<std::string, std::string> refs;
+        auto it = refs.find(op);
+        if (it != refs.end()) return it->second;
+        std::string a, b;
+        { GlobalContext session; a = sess_run(op); }
+        { GlobalContext session; b = sess_run(op); }
+        if (a != b || a.empty()) throw verif::HarnessError("session reference for " + op + " is empty or not deterministic: '" + a + "' vs '" + b + "'");
+        return refs[op] = a;
+    }
+    std::optional<std::string> run_session(const std::string &desc, verif::Ctx *ctx)
+    {
+        const auto ops = split(desc.substr(5), ',');
+        for (auto &op : ops) (void)sess_reference(op);
+        GlobalContext session;
+        for (std::size_t i = 0; i < ops.size(); ++i)
+        {
+            std::string got;
+            try { got = sess_run(ops[i]); }
+            catch (const std::exception &e) { got = std::string{"run threw: "} + std::string{e.what()}.substr(0, 120); }
+            if (ctx) { ++ctx->evaluations; ctx->state(ops[i] + "=" + got); }
+            const std::string &want = sess_reference(ops[i]);
+            if (got != want)
+                return "run " + std::to_string(i) + " (" + ops[i] + ") of session [" + desc.substr(5) + "]: the recording differs from the same graph run alone\n   got : " + got + "\n   want: " + want;
+        }
+        return std::nullopt;
+    }
+
     // ---- parts clock / threads (controlled scheduler) -----------------------------------------------------------------------
     struct SchedWorld { std::vector<std::pair<int, int>> progs; std::vector<std::string> traces; std::string error; };
     vs::ExecResult execute_sched(const std::vector<std::pair<int, int>> &progs, std::int64_t clock_jump_ns, const std::vector<int> &prefix, std::vector<vs::ChoicePoint> &trace_out)
@@ -383,6 +447,7 @@ void verif_init()
 std::optional<std::string> verif_run_case(verif::Ctx &, const std::string &desc)
 {
     if (desc.rfind("hist:", 0) == 0) return run_history(desc, nullptr);
+    if (desc.rfind("sess:", 0) == 0) return run_session(desc, nullptr);
     SchedCase c = parse_sched(desc);
     vs::S().warmup = [] { warm_up(); };
     static bool warmed = false;
@@ -398,6 +463,33 @@ std::optional<std::string> verif_run_case(verif::Ctx &, const std::string &desc)
 void verif_enumerate(verif::Ctx &ctx)
 {
     const bool th = ctx.thorough();
+    if (ctx.sub == "sess")
+    {
+        std::vector<std::string> alpha;
+        for (char g : {'P', 'T'}) for (char l : {'s', 'd'}) for (char h : {'0', '1'}) alpha.push_back(std::string{g} + l + h);
+        const int L = th ? 5 : 4;
+        std::vector<std::size_t> idx;
+        std::function<void(int)> rec = [&](int depth) {
+            if (depth >= 1 && ctx.next_is_mine())
+            {
+                std::string desc = "sess:";
+                for (std::size_t i = 0; i < idx.size(); ++i) desc += (i ? "," : "") + alpha[idx[i]];
+                ++ctx.traces; ctx.transitions += idx.size();
+                if (idx.size() >= 2) ctx.nontriv(desc);
+                ctx.count("sessions_len" + std::to_string(idx.size()));
+                if (auto v = run_session(desc, &ctx))
+                {
+                    auto v2 = run_session(desc, nullptr);
+                    if (!v2 || *v2 != *v) throw verif::HarnessError("case not reproducible: " + desc);
+                    ctx.violation(desc, *v, "session: the recording of a run depends on earlier runs (" + desc.substr(desc.rfind(',') == std::string::npos ? 5 : desc.rfind(',') + 1, 2) + ")");
+                }
+            }
+            if (depth == L) return;
+            for (std::size_t i = 0; i < alpha.size(); ++i) { idx.push_back(i); rec(depth + 1); idx.pop_back(); }
+        };
+        rec(0);
+        return;
+    }
     if (ctx.sub == "hist")
     {
         // every history of length <= 3 over the full alphabet; thorough adds length 4 over the letters R<p>0, B<p>0, X<p>0, C0, C1
